@@ -35,7 +35,7 @@ import c15_extract  # noqa: E402
 
 PID = "C15"
 PROPS = ["PfModel.Props.C15", "PfModel.Props.C15Keys", "PfModel.Props.C15Sort", "PfModel.Props.C15Pandas", "PfModel.Props.C15Calls", "PfModel.Props.C15Sub", "PfModel.Props.C15SubInj",
-         "PfModel.Props.C15Def", "PfModel.Props.C15Src"]
+         "PfModel.Props.C15Def", "PfModel.Props.C15Src", "PfModel.Props.C15Run", "PfModel.Props.C15RunPipe"]
 GENERATED = True          # Props/C15Src.lean is proved against lean/PfModel/Generated/C15Facts.lean, regenerated from the source on every run
 DRIVER = "C15"
 RULE = ("values from one seeded recursive generator (depth <= 3) over None/bool/int/float(half-integers, inf, nan, -0.0)/str/bytes/"
